@@ -26,6 +26,7 @@ from ..common import sx, LEAN, REPO, Q
 from .. import futil, ser, gen_terms
 from ..futil import funsor, Tensor, Number, Variable
 from . import c02_rec as R
+from . import c02_extra as X
 
 import funsor.ops as ops
 import funsor.interpretations as FI
@@ -49,10 +50,13 @@ LEAN_RULES = {
     "funsor.terms.eager_unary": ["numberUnary"],
     "funsor.terms.eager_getitem_lambda": ["lambdaGetitem"],
     "funsor.terms.eager_subs_funsor": ["stackSelect"],
-    "funsor.terms.eager_reduce": ["reduceUnrelated"],
-    "funsor.terms.lazy_reduce": ["reduceUnrelated"],
-    "funsor.terms.sequential_reduce": ["reduceUnrelated"],
-    "funsor.terms.moment_matching_reduce": ["reduceUnrelated"],
+    "funsor.terms.eager_reduce": ["reduceUnrelated", "reduceUnrelatedMul"],
+    "funsor.terms.lazy_reduce": ["reduceUnrelated", "reduceUnrelatedMul"],
+    "funsor.terms.sequential_reduce": ["reduceUnrelated", "reduceUnrelatedMul"],
+    "funsor.terms.moment_matching_reduce": ["reduceUnrelated", "reduceUnrelatedMul"],
+    "funsor.cnf.eager_contraction_to_reduce": ["contractionToReduce"],
+    "funsor.cnf.eager_contraction_to_binary": ["contractionToBinary"],
+    "funsor.cnf.normalize_fuse_subs": ["subsFuseNormalize"],
 }
 
 RTOL = 1e-9
@@ -429,6 +433,42 @@ def replay_python(recipe, mode, rule):
             f"FAILS = any(b['rule'] == {rule!r} for b in bad) if {rule!r} else bool(bad)\n")
 
 
+def _bad_from_firings(firings, allow_shared=False):
+    import random as _random
+    rng = _random.Random("C02-bad")
+    out = []
+    seen = set()
+    for f in firings:
+        if not isinstance(f.result, Funsor):
+            continue
+        key = (f.interp, f.rule, R.struct_key(f.args))
+        if key in seen:
+            continue
+        seen.add(key)
+        if not allow_shared and R.bound_name_clash(f.args):
+            continue
+        try:
+            with reflect:
+                refl = f.reflected()
+        except (AssertionError, ValueError, TypeError, KeyError, NotImplementedError):
+            continue
+        if f.result is refl or carrier_violation(refl, f.result):
+            continue
+        extra = sorted(set(f.result.inputs) - set(refl.inputs))
+        if extra:
+            out.append({"rule": f.rule, "interp": f.interp, "kind": "foreign-input", "extra": extra,
+                        "reflected": tstr(refl)[:300], "result": tstr(f.result)[:300]})
+            continue
+        pts = R.joint_points(refl.inputs)
+        st, det = oracle_check(refl, f.result, pts) if pts is not None else ("unsupported", None)
+        if st in ("unsupported", "undef"):
+            st, det = X.funsor_eval_check(refl, f.result, rng)
+        if st == "differ":
+            out.append({"rule": f.rule, "interp": f.interp, "kind": "value", "detail": det,
+                        "reflected": tstr(refl)[:300], "result": tstr(f.result)[:300]})
+    return out
+
+
 def bad_firings(recipe, mode, allow_shared=False, rec=None):
     """Python-oracle-only re-run of one program: list of firings whose result differs from the reflected
     term (or introduces an input).  Used by replay, shrinking and `search` (works without Lean)."""
@@ -439,40 +479,33 @@ def bad_firings(recipe, mode, allow_shared=False, rec=None):
     try:
         rec.firings = []
         run_program(rec, recipe, mode)
-        out = []
-        seen = set()
-        for f in rec.firings:
-            if not isinstance(f.result, Funsor):
-                continue
-            key = (f.interp, f.rule, R.struct_key(f.args))
-            if key in seen:
-                continue
-            seen.add(key)
-            if not allow_shared and R.bound_name_clash(f.args):
-                continue
-            try:
-                with reflect:
-                    refl = f.reflected()
-            except (AssertionError, ValueError, TypeError, KeyError, NotImplementedError):
-                continue
-            if f.result is refl or carrier_violation(refl, f.result):
-                continue
-            extra = sorted(set(f.result.inputs) - set(refl.inputs))
-            if extra:
-                out.append({"rule": f.rule, "interp": f.interp, "kind": "foreign-input", "extra": extra,
-                            "reflected": tstr(refl)[:300], "result": tstr(f.result)[:300]})
-                continue
-            pts = R.joint_points(refl.inputs)
-            if pts is None:
-                continue
-            st, det = oracle_check(refl, f.result, pts)
-            if st == "differ":
-                out.append({"rule": f.rule, "interp": f.interp, "kind": "value", "detail": det,
-                            "reflected": tstr(refl)[:300], "result": tstr(f.result)[:300]})
-        return out
+        firings, rec.firings = rec.firings, []
+        return _bad_from_firings(firings, allow_shared)
     finally:
         if own:
             rec.uninstall()
+
+
+def bad_firings_extra(family, subseed, mode, rec=None):
+    own = rec is None
+    if own:
+        rec = R.Recorder()
+        rec.install()
+    try:
+        rec.firings = []
+        X.run_extra(rec, family, subseed, mode)
+        firings, rec.firings = rec.firings, []
+        return _bad_from_firings(firings)
+    finally:
+        if own:
+            rec.uninstall()
+
+
+def replay_python_extra(family, subseed, mode, rule):
+    return ("import sys\nsys.path.insert(0, '/verif')\nfrom fv.harness import c02\n"
+            f"bad = c02.bad_firings_extra({family!r}, {subseed!r}, {mode!r})\n"
+            "for b in bad[:3]:\n    print(b)\n"
+            f"FAILS = any(b['rule'] == {rule!r} for b in bad)\n")
 
 
 class Checker:
@@ -486,6 +519,7 @@ class Checker:
         self.progs = {}
         self.lean_checked = 0
         self.oracle_checked = 0
+        self.feval_checked = 0
         self.model_fired = Counter()
         self.model_declined = Counter()
         self.samples = 0
@@ -505,6 +539,34 @@ class Checker:
         for f in firings:
             self.prepare(f)
         return st, val
+
+    def add_extra(self, family, subseed, mode):
+        pid = len(self.progs)
+        self.progs[pid] = (("extra", family, subseed), mode, "clean")
+        self.rec.firings = []
+        st, val = X.run_extra(self.rec, family, subseed, mode, pid)
+        self.ctx.count(f"extra:{family}")
+        if st == "declined":
+            self.ctx.count(f"program-declined:{val.split(':')[0]}")
+        firings, self.rec.firings = self.rec.firings, []
+        for f in firings:
+            self.prepare(f)
+        return st, val
+
+    def feval(self, f, refl, why):
+        """third decision path: funsor evaluates both terms at sample points (beyond Lean and py_denote)"""
+        ctx = self.ctx
+        st, det = X.funsor_eval_check(refl, f.result, self.pts_rng)
+        if st == "differ":
+            self.violation(f, refl, "C02.rewrite-changes-value", expected=str(det.get("reflected"))[:300],
+                           got=str(det.get("result"))[:300], detail=det)
+        elif st == "same":
+            self.feval_checked += 1
+            ctx.count("funsor-eval:same")
+            self.case(f, refl, "funsor-eval-at-sample-points")
+        else:
+            ctx.count(f"beyond-model:{why}/funsor-eval-{st}")
+            ctx.case()
 
     def prepare(self, f):
         ctx = self.ctx
@@ -545,8 +607,7 @@ class Checker:
             return
         split = bint_real_split(refl.inputs)
         if split is None:
-            ctx.count("beyond-model:array-or-exotic-input")
-            ctx.case()
+            self.feval(f, refl, "array-input")
             return
         ins, reals = split
         fixed_envs = [{}]
@@ -583,7 +644,7 @@ class Checker:
         try:
             c.wire_refl = wire_of(refl)
             c.wire_res = ser.to_wire(f.result)
-        except ser.Unsupported as e:
+        except (ser.Unsupported, AttributeError) as e:   # AttributeError: fv/ser.py reads Align.names (no such attribute)
             ctx.count("lean-beyond-model->python-oracle")
             self.oracle(f, refl, why=str(e))
             return
@@ -606,8 +667,7 @@ class Checker:
         ctx = self.ctx
         pts = R.joint_points(refl.inputs)
         if pts is None:
-            ctx.count("beyond-model:no-oracle-points")
-            ctx.case()
+            self.feval(f, refl, "no-oracle-points")
             return
         st, det = oracle_check(refl, f.result, pts)
         if st == "differ":
@@ -618,8 +678,7 @@ class Checker:
             ctx.count("oracle:same")
             self.case(f, refl, "python-oracle")
         else:
-            ctx.count(f"beyond-model:oracle-{st}")
-            ctx.case()
+            self.feval(f, refl, f"oracle-{st}")
 
     def case(self, f, refl, how):
         sample = None
@@ -713,7 +772,11 @@ class Checker:
         witness = {"interpretation": f.interp, "rule": f.rule, "term_class": f.cls.__name__,
                    "reflected": tstr(refl)[:600], "result": tstr(f.result)[:600], "mode": mode, "detail": detail}
         py = None
-        if recipe is not None:
+        if isinstance(recipe, tuple) and recipe and recipe[0] == "extra":
+            _, family, subseed = recipe
+            witness["program"] = f"c02_extra.build({family!r}, {subseed!r}) under {mode}"
+            py = replay_python_extra(family, subseed, mode, f.rule)
+        elif recipe is not None:
             rule = f.rule
             small = recipe
             self.shrunk = getattr(self, "shrunk", 0) + 1
@@ -793,6 +856,54 @@ def shared_binder_stream(ctx, rec):
                      "r = apply_optimizer(e)\nprint(r)\nFAILS = float(r.data) != 36.0\n"))
 
 
+def delta_logdensity_stream(ctx, rec):
+    """Dedicated stream for the finding KF-delta-logdensity-inputs: Delta.__init__ omits the inputs of
+    log_density, so the lazy Reduce over the delta's variable declares no input `i` while the eager rule's
+    result depends on it (first firing whose result has an input the reflected term lacks)."""
+    from funsor.domains import Bint
+    from funsor.delta import Delta
+
+    def prog():
+        logd = Tensor(np.array([-2.0, 1.0, -2.0]), OrderedDict(i=Bint[3]))
+        d = Delta("x", Tensor(np.array(0.0)), logd)
+        return d.reduce(ops.logaddexp, "x")
+    rec.firings = []
+    st, val = rec.run("kf-delta", prog)
+    firings, rec.firings = rec.firings, []
+    hit = None
+    for fr in firings:
+        if not isinstance(fr.result, Funsor):
+            continue
+        try:
+            with reflect:
+                refl = fr.reflected()
+        except (AssertionError, ValueError, TypeError, KeyError):
+            continue
+        extra = sorted(set(fr.result.inputs) - set(refl.inputs))
+        if extra:
+            hit = (fr, refl, extra)
+            break
+    fid = "KF-delta-logdensity-inputs"
+    if hit is None:
+        if ctx.is_open(fid):
+            ctx.known(fid, reproduced=False)
+        return
+    fr, refl, extra = hit
+    what = (f"{fr.interp}:{fr.rule}: reflected {tstr(refl)[:160]} declares inputs {list(refl.inputs)}, result "
+            f"{tstr(fr.result)[:100]} has extra inputs {extra} (Delta.__init__ omits log_density.inputs)")
+    ctx.extra["kf_delta_logdensity"] = what
+    if ctx.known(fid, reproduced=True, what=what):
+        return
+    ctx.fail("input", "C02.rewrite-introduces-input", witness={"rule": fr.rule, "reflected": tstr(refl)[:400],
+                                                               "result": tstr(fr.result)[:400], "extra_inputs": extra},
+             expected=f"inputs ⊆ {list(refl.inputs)}", got=f"extra inputs {extra}",
+             python=("import numpy as np\nfrom collections import OrderedDict\nimport funsor, funsor.ops as ops\n"
+                     "from funsor.domains import Bint\nfrom funsor.tensor import Tensor\nfrom funsor.delta import Delta\n"
+                     "logd = Tensor(np.array([-2., 1., -2.]), OrderedDict(i=Bint[3]))\n"
+                     "d = Delta('x', Tensor(np.array(0.)), logd)\nr = d.reduce(ops.logaddexp, 'x')\n"
+                     "print(dict(d.inputs), r)\nFAILS = 'i' in r.inputs and 'i' not in d.inputs\n"))
+
+
 # ---------------------------------------------------------------------------------------------
 # correspondence
 # ---------------------------------------------------------------------------------------------
@@ -825,6 +936,14 @@ def battery(ctx, chk, n_recipes, n_sp, focus=None):
             if st == "declined" and mode.startswith("reflect>"):
                 chk.add_program(recipe, "lazy>" + mode.split(">")[1])
         ctx.count("programs:sum-product")
+    n_extra = max(1, (n_recipes + n_sp) // 6)
+    fams = list(X.FAMILIES)
+    for k in range(n_extra):
+        family = fams[k % len(fams)]
+        subseed = rng.randrange(10 ** 9)
+        for mode in rng.sample(X.EXTRA_MODES, 2) + (["eager"] if k % 2 == 0 else []):
+            chk.add_extra(family, subseed, mode)
+        ctx.count("programs:extra")
     chk.flush()
 
 
@@ -839,6 +958,7 @@ def report(ctx, chk):
     ctx.extra["rules_never_fired"] = sorted(q for q in reg_fns if not chk.fired_any.get(q))
     ctx.extra["registered_rule_functions_exact_interps"] = len(reg_fns)
     ctx.extra["firings"] = {"lean_decided": chk.lean_checked, "python_oracle_decided": chk.oracle_checked,
+                            "funsor_eval_decided": chk.feval_checked,
                             "rule_calls": chk.rec.calls, "declined_calls": chk.rec.declined}
     ctx.extra["lean_rule_models"] = {"fired_and_equal_to_impl": dict(chk.model_fired),
                                      "declined": dict(chk.model_declined)}
@@ -854,6 +974,7 @@ def correspond(ctx):
         else:
             battery(ctx, chk, 6000, 4000)
         shared_binder_stream(ctx, rec)
+        delta_logdensity_stream(ctx, rec)
         report(ctx, chk)
     finally:
         rec.uninstall()
